@@ -2,8 +2,16 @@ package main
 
 import (
 	"verif/checks/c07"
+	"verif/checks/c08"
+	"verif/checks/c09"
+	"verif/checks/c10"
+	"verif/common"
 )
 
 func init() {
 	registry["C07"] = c07.Run
+	registry["C08"] = c08.Run
+	registry["C09"] = c09.Run
+	registry["C10"] = c10.Run
+	registry["C08-race"] = func(ctx *common.Ctx) int { return c08.Race(ctx, flagGomaxprocs) }
 }
